@@ -144,6 +144,10 @@ def index_forms(n, sub, seedsel):
         if len(sub) >= 2:
             forms.append(('dict', {'a': b.get_dofs(np.array(sub[:1], dtype=np.int32)),
                                    'b': b.get_dofs(np.array(sub[1:], dtype=np.int32))}))
+            # overlapping views (e.g. two sides of a domain sharing a corner)
+            forms.append(('dict-overlapping', {'a': b.get_dofs(np.array(sub[:2], dtype=np.int32)),
+                                               'b': b.get_dofs(np.array(sub[1:], dtype=np.int32)),
+                                               'c': b.get_dofs(np.array(sub[:1], dtype=np.int32))}))
     return forms
 
 
